@@ -4,7 +4,8 @@
 
    The traversal itself (/repo/traversal/operation.go) is Traversal.v; here it is only what its owner
    and its DoQuery callback can see of it:
-     TIssue a      the run loop starts DoQuery(a) (only while not stopping; finitely often: l_budget)
+     TIssue a      the run loop starts DoQuery(a) (only once AddNodes has seeded it, only while not stopping;
+                   finitely often: l_budget)
      QReturn/QDeliver/QAbandon/QFinish   the body of one DoQuery call and its completion under op.mu
                    (addClosest through the container's [push], then outstanding--)
      Stalled()     receivable when nothing is in flight, and for good once the run loop has exited
@@ -221,6 +222,13 @@ Section Lookups.
   (* Stalled() is receivable: the run loop offers it with nothing in flight, or has exited *)
   Definition stall_ready (s : lstate) : bool := l_started s && (l_loop_exited s || nil_b (l_inflight s)).
 
+  (* the traversal has candidates only once AddNodes was given the starting nodes *)
+  Definition seeded (s : lstate) : bool :=
+    match lc_sn c with
+    | SNOk => negb (opc_eqb (l_owner s) OStart || opc_eqb (l_owner s) OStartNodes)
+    | _ => false
+    end.
+
   (* phase after Server.Query returned inside DoQuery *)
   Definition after_query (r : option greply) : qphase :=
     match r with
@@ -273,7 +281,7 @@ Section Lookups.
     | OSend _ => opc_eqb (l_owner s) OAnnounce && negb (nil_b (l_todo s))
     | OSendsDone => opc_eqb (l_owner s) OAnnounce && nil_b (l_todo s)
     | OCloseP => opc_eqb (l_owner s) OClosePeers
-    | TIssue _ => l_started s && negb (l_stopping s) && negb (l_loop_exited s) && negb (Nat.eqb (l_budget s) 0)
+    | TIssue _ => l_started s && negb (l_stopping s) && negb (l_loop_exited s) && negb (Nat.eqb (l_budget s) 0) && seeded s
     | TLoopExit => l_started s && l_stopping s && negb (l_loop_exited s)
     | TStopWait => l_started s && l_stopping s && negb (l_stopped s) && nil_b (l_inflight s)
     | QReturn q _ => tq_at s q PQuery
@@ -424,3 +432,24 @@ Section Lookups.
     + b2n (l_stopping s) + b2n (l_stopped s) + b2n (l_loop_exited s)
     + b2n (l_ctx s) + b2n (l_aclosed s) + (if l_reads s then 1 else 0).
 End Lookups.
+
+(* ---- an executable container for [push]: k_nearest_nodes.Type keyed by (distance of the id to the target,
+   then address), kept sorted, trimmed to k after every Push (same shape as Order.kn_push; ids are
+   numbers here).  Used by RunLookups and by the non-vacuity examples. ---- *)
+Definition lk_cmp (t : N) (a b : elem) : comparison :=
+  match N.compare (N.lxor (e_id a) t) (N.lxor (e_id b) t) with
+  | Eq => N.compare (e_addr a) (e_addr b)
+  | x => x
+  end.
+Fixpoint lk_insert (t : N) (e : elem) (l : list elem) : list elem :=
+  match l with
+  | [] => [e]
+  | y :: r =>
+      match lk_cmp t e y with
+      | Lt => e :: l
+      | Eq => e :: r
+      | Gt => y :: lk_insert t e r
+      end
+  end.
+Definition lk_push (t : N) (k : nat) (l : list elem) (e : elem) : list elem := firstn k (lk_insert t e l).
+
